@@ -225,7 +225,14 @@ pub fn apply_user_step(w: &mut World, step: &Step, h: &History, clock_skew: u64)
             let p = resolve_sel(w, *side, path, h)?;
             let full = format!("{}/{}", root_of(*side), p);
             w.clock_ns += 1_500_000_000 + clock_skew;
-            let t = w.clock_ns;
+            // "forall assignments of mtimes": most edits carry the current time, some are
+            // backdated (cp -p / tar x / touch -d) or carry the same mtime as before
+            let pick = crate::gen::fnv(&[h.seed, clock_skew, crate::gen::fnv_bytes(p.as_bytes()), u64::from(*c), w.clock_ns / 1_000_000_000 % 7]);
+            let t = match pick % 5 {
+                0 => 978_307_200_000_000_000 + (pick % 1000) * 1_000_000_000, // year 2001
+                1 => 1_700_000_000_000_000_000,                               // the world's start time
+                _ => w.clock_ns,
+            };
             let fs = w.host(HOST);
             // writing below an existing file, or over a directory, is not a user action we model
             if fs.stat("/", &full, true).map(|m| m.kind == copia_simworld::fs::Kind::Dir).unwrap_or(false) {
